@@ -305,6 +305,27 @@ func (bb *brokenBoxes) delete(key Box) {
 	}
 }
 
+func (bb *brokenBoxes) copy() *brokenBoxes {
+	out := &brokenBoxes{keys: append([]Box(nil), bb.keys...), values: make(map[Box]brokenBox, len(bb.values))}
+	for k, v := range bb.values {
+		out.values[k] = v
+	}
+	return out
+}
+
+// equal reports whether the same boxes are to be continued from the same places
+func (bb *brokenBoxes) equal(other *brokenBoxes) bool {
+	if other == nil || len(bb.keys) != len(other.keys) {
+		return false
+	}
+	for i, k := range bb.keys {
+		if other.keys[i] != k || !bb.values[k].resumeAt.Equals(other.values[k].resumeAt) {
+			return false
+		}
+	}
+	return true
+}
+
 func (bb *brokenBoxes) clear() {
 	bb.keys = nil
 	bb.values = make(map[Box]brokenBox)
@@ -333,7 +354,11 @@ type layoutContext struct {
 	footnotes            []Box
 	currentPageFootnotes []Box
 	reportedFootnotes    []Box
-	currentFootnoteArea  *bo.FootnoteAreaBox
+	// footnotes reported to a page, and out-of-flow boxes to continue on it, left
+	// by the previous page, by page index: needed to go on after a page that is kept as it is
+	reportedToPage      map[int][]Box
+	brokenToPage        map[int]*brokenBoxes
+	currentFootnoteArea *bo.FootnoteAreaBox
 
 	currentPage int
 	pageBottom  pr.Float
